@@ -33,7 +33,8 @@ const P: u64 = 0xFFFF_FFFF_0000_0001;
 enum Stream {
     /// xoshiro from the seed
     Good,
-    /// the first `j` 32-byte requests return all-ones limbs (>= p), then good
+    /// the first `j` requests of at least one limb (8 bytes; the shipped code asks for 32 at once,
+    /// a per-limb refactor for 8) return all-ones limbs (>= p), then good
     NonCanonicalFirst { j: u32 },
     /// every byte is this constant
     Stuck { byte: u8 },
@@ -78,7 +79,7 @@ fn install_provider(stream: Stream, seed: u64) -> Rc<RefCell<ProviderLog>> {
         match stream {
             Stream::Good => rng.fill(dest),
             Stream::NonCanonicalFirst { j } => {
-                if dest.len() == 32 && l.noncanonical_served < j {
+                if dest.len() >= 8 && l.noncanonical_served < j {
                     l.noncanonical_served += 1;
                     for b in dest.iter_mut() {
                         *b = 0xff;
